@@ -184,7 +184,16 @@ fn gen_file(rng: &mut Rng, i: usize, pattern_pool: usize) -> FileRec {
         rel_path = format!("{dirs}/{name}");
     }
     let types = [0o100000u32, 0o100000, 0o100000, 0o040000, 0o120000, 0o010000];
-    let size = rng.range(1, 5_000_000);
+    // one file in 12 has attribute values at the far ends of their ranges: a scan-time branch on
+    // such a value (another printer for huge files, for dates before 1970, for the nobody user, ...) is
+    // taken only if some file has it
+    let extreme = rng.chance(1, 12);
+    if extreme && rng.chance(1, 2) {
+        let odd = *rng.pick(&["my file.txt", "résumé.doc", "日本語.log", "a'b.c", "tab\there", "-n", "x y  z"]);
+        rel_path = format!("{}/{odd}", rel_path.rsplit_once('/').map(|(d, _)| d.to_string()).unwrap_or_default());
+        name = odd.to_string();
+    }
+    let size = if extreme { *rng.pick(&[0u64, (1 << 31) - 1, 1 << 31, (1 << 32) + 5, 1 << 40, 1 << 53]) } else { rng.range(1, 5_000_000) };
     let pools = ["fast", "ssd0", "arch_1"];
     FileRec {
         abs_path: format!("/mnt/lustre/{rel_path}"),
@@ -192,13 +201,13 @@ fn gen_file(rng: &mut Rng, i: usize, pattern_pool: usize) -> FileRec {
         rel_path,
         mode: *rng.pick(&types) | (rng.below(0o10000) as u32),
         size,
-        uid: *rng.pick(&[0, 1000, 1001, 60000]),
-        gid: *rng.pick(&[0, 100, 1000]),
-        ino: 1000 + i as u64 * 17 + rng.below(16),
-        nlink: rng.range(1, 3),
-        atime: COMPILE_CLOCK as i64 - rng.below(200 * 86_400) as i64,
+        uid: if extreme { *rng.pick(&[65534, 65535, (1u32 << 31) - 1, 4_000_000_000]) } else { *rng.pick(&[0, 1000, 1001, 60000]) },
+        gid: if extreme { *rng.pick(&[65534, 4_000_000_000]) } else { *rng.pick(&[0, 100, 1000]) },
+        ino: if extreme { (1u64 << 32) + i as u64 * 17 + rng.below(16) } else { 1000 + i as u64 * 17 + rng.below(16) },
+        nlink: if extreme { *rng.pick(&[1u64, 1000, 65000, 100_000]) } else { rng.range(1, 3) },
+        atime: if extreme { *rng.pick(&[0i64, -1, -86_400 * 365, 1 << 31, (1 << 32) + 7, 253_402_300_799]) } else { COMPILE_CLOCK as i64 - rng.below(200 * 86_400) as i64 },
         ctime: COMPILE_CLOCK as i64 - rng.below(200 * 86_400) as i64,
-        mtime: COMPILE_CLOCK as i64 - rng.below(200 * 86_400) as i64,
+        mtime: if extreme { *rng.pick(&[0i64, -1, -86_400 * 365, 1 << 31, (1 << 32) + 7, 253_402_300_799]) } else { COMPILE_CLOCK as i64 - rng.below(200 * 86_400) as i64 },
         blocks: (size + 511) / 512,
         projid: rng.below(4) as u32,
         stripe_count: rng.range(1, 4) as u32,
@@ -255,7 +264,38 @@ fn volume_workload(rng: &mut Rng, tier: Tier, huge: bool) -> Workload {
     w
 }
 
+/// A long scan: 66 000-132 000 records to ONE destination (5 000-17 000 files, 8-13 actions on the same
+/// target each) — counters of records or lines ("every 65536 lines ...", a 16-bit sequence number)
+/// only roll over in scans of this length; production scans cover 10^7-10^9 inodes.
+fn many_records_workload(rng: &mut Rng, tier: Tier) -> Workload {
+    let mut w = workload_inner(rng, tier, true);
+    let k = rng.range(8, 13) as usize;
+    let action = *rng.pick(&["-print", "-print", "-fprint lines.txt", "-printf '%p\\n'", "-fprintf lines.txt '%f\\n'"]);
+    let lead = if rng.chance(1, 2) { "-fprint files.txt " } else { "" };
+    w.expr = format!("{lead}{}", vec![action; k].join(" "));
+    w.probe = false;
+    let records = *rng.pick(&[66_000usize, 70_000, 132_000]);
+    let n_files = records.div_ceil(k);
+    w.files = (0..n_files).map(|i| gen_file(rng, i, 8)).collect();
+    w.threads = *rng.pick(&[2usize, 2, 3]);
+    w.partition = vec![vec![]; w.threads];
+    let skew = rng.chance(1, 2);
+    for f in 0..n_files {
+        // even shares, or one thread with nearly everything and the others with a handful near the end
+        let t = if skew { if f % 97 == 0 { 1 + rng.usize_below(w.threads - 1) } else { 0 } } else { rng.usize_below(w.threads) };
+        w.partition[t].push(f);
+    }
+    w.dynamic_assignment = false;
+    w.max_chunks = *rng.pick(&[1usize, 2]);
+    w.buffer_cap = *rng.pick(&[None, Some(4096), Some(4096), Some(1024)]);
+    w.stall_large_writes = None;
+    w
+}
+
 pub fn workload(rng: &mut Rng, tier: Tier) -> Workload {
+    if rng.chance(1, 4_000) {
+        return many_records_workload(rng, tier);
+    }
     if rng.chance(1, 2000) {
         return volume_workload(rng, tier, true);
     }
@@ -1117,6 +1157,9 @@ pub fn run_block(seed: u64, first: u64, count: u64, tier: Tier) -> Result<BlockR
             Prep::Ready(p) => p,
             Prep::Discard(why) => {
                 br.bump(if w.probe { "probe_workloads_set_aside" } else { "discarded_runs" }, 1);
+                if std::env::var_os("VERIF_SHOW_DISCARDS").is_some() {
+                    eprintln!("discarded run {index}: {}", why.chars().take(300).collect::<String>());
+                }
                 br.digests.push(mix(&[hash_str(&why)]));
                 continue;
             }
@@ -1148,7 +1191,8 @@ pub fn run_block(seed: u64, first: u64, count: u64, tier: Tier) -> Result<BlockR
         let mut found: Option<(Violation, Vec<u32>)> = None;
         let mut sample_trace: Option<Value> = None;
         let mut k = 0;
-        let mut budget = per_program;
+        // very long scans (many_records_workload) get two schedules each, not six or twelve
+        let mut budget = if prep.seq_events > 300_000 { 2 } else { per_program };
         while k < budget {
             let strategy = pick_strategy(&mut rng, est);
             let sname = strategy.name();
@@ -1189,7 +1233,7 @@ pub fn run_block(seed: u64, first: u64, count: u64, tier: Tier) -> Result<BlockR
                 // a shared destination is written without one common mutex: not a verdict by
                 // itself, but worth a much deeper schedule search on this program
                 escalate = true;
-                budget += 400;
+                budget += if prep.seq_events > 300_000 { 10 } else { 400 };
                 br.bump("programs_escalated_for_unprotected_writes", 1);
             }
             k += 1;
@@ -1538,7 +1582,7 @@ pub fn check(tier: Tier) -> i32 {
         wall_s: wall,
         evaluations: executions,
         distinct_nontrivial: distinct,
-        rule: "One case = one execution of one generated program (1-14 output actions of every kind over relative/absolute/aliased destinations, framed or plain mode, optional -quit, 0-130 tests in front; probe workloads with -ls/-fls or \\c formats; one workload in 400 is a volume workload of 300-1200 files and 100-400 KiB, one in 2000 a huge one of 1500-3000 files and 3-11 MiB per destination) on 2-4 scanner threads over 1-8 files (one file in 25 under a path of 260-4000 characters, one extended-attribute value in 16 of 300-65536 characters; one workload in 12: 5-40 threads over 8-52 files) under one seeded schedule (Random, Sticky or PCT strategy; scheduling points at every lock/unlock, every port operation, every access to an assigned variable or hash table, and between files; displays split into up to 3 chunk writes; ports unbuffered or unsynchronised block-buffered with capacity 8-4096; large writes may stall). The final stream of every destination is compared, as a multiset of frames or lines, with sequential scans of the same program. Non-trivial = the event trace switches between scanner threads at least once. distinct_nontrivial counts distinct (program text, lock/unlock/write/file event trace) pairs among them, i.e. distinct interleavings reached.",
+        rule: "One case = one execution of one generated program (1-14 output actions of every kind over relative/absolute/aliased destinations, framed or plain mode, optional -quit, 0-130 tests in front; probe workloads with -ls/-fls or \\c formats; one workload in 400 is a volume workload of 300-1200 files and 100-400 KiB, one in 2000 a huge one of 1500-3000 files and 3-11 MiB per destination, one in 4000 a long scan of 66000-132000 records to one destination) on 2-4 scanner threads over 1-8 files (one file in 25 under a path of 260-4000 characters, one extended-attribute value in 16 of 300-65536 characters; one workload in 12: 5-40 threads over 8-52 files) under one seeded schedule (Random, Sticky or PCT strategy; scheduling points at every lock/unlock, every port operation, every access to an assigned variable or hash table, and between files; displays split into up to 3 chunk writes; ports unbuffered or unsynchronised block-buffered with capacity 8-4096; large writes may stall). The final stream of every destination is compared, as a multiset of frames or lines, with sequential scans of the same program. Non-trivial = the event trace switches between scanner threads at least once. distinct_nontrivial counts distinct (program text, lock/unlock/write/file event trace) pairs among them, i.e. distinct interleavings reached.",
         samples: red.samples.clone(),
         extra,
         assumptions: vec![
